@@ -83,6 +83,15 @@ func Open(kind, scratch string) (*Opened, error) {
 	case kind == "memory-capped":
 		m := ebu.NewMemoryStore()
 		return &Opened{Kind: kind, Store: &Capped{Inner: m, Cap: 2}, Sub: m, Close: func() {}}, nil
+	case kind == "sqlite-paged":
+		// the SQLite store behind an Append/Read-only wrapper: Replay takes the paged path over
+		// unpadded decimal offsets
+		o, err := Open("sqlite-file", scratch)
+		if err != nil {
+			return nil, err
+		}
+		o.Kind, o.Store, o.Reopen = kind, &Paged{Inner: o.Store}, nil
+		return o, nil
 	case strings.HasPrefix(kind, "sqlite"):
 		var opts []sqlite.Option
 		if i := strings.Index(kind, "batch"); i >= 0 {
